@@ -686,14 +686,28 @@ class Bounds:
             return False
         return d[pos[x]][pos[y]] <= lb[1] + c - la[1]
 
-    def upper(self, a, bb):
+    def upper(self, a, bb, depth=0):
         la = self.lin(a)
         if la[0] is None:
             return la[1]
         pos, d, infeasible = self.closure(bb, [a])
         if infeasible:
             return -INF
-        return d[pos[la[0]]][pos[None]] + la[1]
+        u = d[pos[la[0]]][pos[None]] + la[1]
+        # products and quotients of operands whose own bounds come from branch facts (`i < n` then `i * 2`)
+        at = la[0]
+        if depth < 3 and isinstance(at, tuple) and at and at[0] == "bin":
+            op = at[1].replace("WithOverflow", "")
+            if op in ("Mul", "Div", "Shr"):
+                ux, uy = self.upper(at[2], bb, depth + 1), self.upper(at[3], bb, depth + 1)
+                lx, ly = self.lower(at[2], bb), self.lower(at[3], bb)
+                if op == "Mul" and lx >= 0 and ly >= 0 and INF not in (ux, uy):
+                    u = min(u, ux * uy + la[1])
+                elif op == "Div" and lx >= 0 and ly >= 1 and ux != INF:
+                    u = min(u, ux // ly + la[1])
+                elif op == "Shr" and lx >= 0 and ly >= 0 and ux != INF and ly != INF and ly == uy:
+                    u = min(u, ux // (2 ** int(ly)) + la[1])
+        return u
 
     def lower(self, a, bb):
         la = self.lin(a)
